@@ -131,4 +131,8 @@ def check(ctx: Ctx) -> str:
     from . import c10
 
     ctx.run_imported("C10", {"R1"}, c10.check)
+    # a set block hands on what was captured, unconverted (rule owned by C15)
+    from . import c15
+
+    ctx.run_imported("C15", {"R6"}, c15.check)
     return __doc__ or ""
